@@ -36,11 +36,12 @@ P = {
          "with contact bits, mixers - and stop exactly at the end of the encoding, any trailing bytes), C05_schema, C05_alerts (31-day-month calendar, "
          "open-ended alerts), C05_password, C05_regdata_body / C05_regdata (regulator data over any schema of the 17 generated type ids: "
          "consecutive flags share bytes LSB first, eight to a byte, every other entry starts on a fresh byte and is the packed form of its type; "
-         "whole message with version word and frame versions; the Coq layout is compared with the generator's on every case). The UID text "
-         "(CRC-16 + base-32) is an executable Coq model validated against the real frame classes on generated values and on every "
-         "capture of tests/testdata; determinism and payload immutability are checked on the implementation.",
-         "partial for the UID text only: modelled and validated by correspondence plus the functional check against the abstract value, "
-         "no theorem beyond the model's definition."),
+         "whole message with version word and frame versions; the Coq layout is compared with the generator's on every case), C05_uid (the UID "
+         "text is the canonical base-32 numeral, no leading zero, of the little-endian number UID bytes ++ CRC-16; the CRC stays a 16-bit word) "
+         "and C05_product (whole product-information message). Every kind is also run against the real frame classes on generated values and on "
+         "every capture of tests/testdata; determinism and payload immutability are checked on the implementation.",
+         "the CRC-16 polynomial arithmetic and the 32-character alphabet are the model's definitions (validated by correspondence on generated "
+         "and captured UIDs); text decoding and float32 widening are CPython's."),
  "C06": ("Theorems C06_reject (a request outside [min,max] raises, nothing is ever transmitted for that call, held triple untouched - also when "
          "the request equals an out-of-range held value) and C06_transmitted (for every history of timer expiries and reports, every set request of "
          "the call carries a value within the bounds held at the call) - closed; implementation checked on every description of every table with "
